@@ -181,6 +181,17 @@ def creation_order(spec, perm=None):
         pending = rest
         if not progressed:
             raise AssertionError(f"cyclic or dangling spec: {pending}")
+    if perm is not None and systems and perm.rng("system-position").random() < 0.5:
+        # the System is created as soon as everything it links to exists: the objects it does not reach by its links
+        # (services that no job uses yet, spare objects) are created afterwards, on a computed model
+        objs = spec["objs"]
+        reach, stack = set(), list(systems)
+        while stack:
+            n = stack.pop()
+            if n not in reach:
+                reach.add(n)
+                stack.extend(deps_of(objs[n]))
+        return [n for n in out if n in reach] + systems + [n for n in out if n not in reach]
     return out + systems
 
 
